@@ -180,8 +180,9 @@ def run(tier):
                 p, lo, hi = block_prob(ref, m, n)
                 pref *= p
                 factors.append((lo, hi))
-            if pref == 0.0 and len(case.blocks) == 1 and not case.probe and ns[0] in (1, 2, NMAX - 1, NMAX):
-                # a chain whose block mass lies outside the support of the law (uniform): the generator never produces it -> outside the ensemble
+            if pref == 0.0 and len(case.blocks) == 1 and case.blocks[0][0] == "uniform" and not case.probe and ns[0] in (1, 2, NMAX - 1, NMAX):
+                # a chain whose block mass lies outside the BOUNDED support of the law (uniform only: for the other families a closed form of 0.0 is
+                # floating-point underflow of a positive tail, not 'outside the support'): the generator never produces it -> outside the ensemble
                 smi0 = case.build(ns)
                 try:
                     p0 = query(smi0)
